@@ -163,10 +163,18 @@ static void mon_fd_final(void)
 }
 
 /* ------------------------------------------------------------------ idx + fd structural walk at quiescent points */
+static void    mon_net_waits_fwd(const char *after);
 static int64_t mon_earliest_deadline_us; /* from walking all_queries, -1 none */
 
 static int64_t tv_to_us(const ares_timeval_t *tv)
 {
+  /* saturating: the library may hold absurd deadlines */
+  if (tv->sec > (ares_int64_t)9000000000000LL) {
+    return INT64_MAX / 2;
+  }
+  if (tv->sec < (ares_int64_t)-9000000000000LL) {
+    return INT64_MIN / 2;
+  }
   return (int64_t)tv->sec * 1000000 + (int64_t)tv->usec;
 }
 
@@ -302,6 +310,7 @@ static void mon_quiescent(const char *after)
       }
     }
   }
+  mon_net_waits_fwd(after);
   /* legacy descriptor sets */
   if (mon_enable_fd && sim_next_fd < FD_SETSIZE && ncf < 1024) {
     fd_set r, w;
